@@ -961,3 +961,79 @@ pub fn check_c13(c: &CheckCtx, _ix: &Index) {
         }
     }
 }
+
+/// C11 — when the last handles of a stream leave through overlapping unsubscribe() calls, exactly
+/// one of them was the last one and must say so
+pub fn check_c11_group(c: &CheckCtx, _ix: &Index) {
+    use std::collections::BTreeMap;
+    // handle life-cycle per stream
+    let mut created: BTreeMap<u32, i64> = BTreeMap::new();
+    created.insert(c.first_stream, 1);
+    let mut removals: BTreeMap<u32, Vec<&Event>> = BTreeMap::new();
+    for e in c.h {
+        match e.op {
+            Op::CloneRx | Op::AddStream => {
+                if let Res::New { stream, .. } = e.res {
+                    *created.entry(stream).or_insert(0) += 1;
+                } else if !e.done() {
+                    return;
+                }
+            }
+            Op::DropRx | Op::Unsub => {
+                if !e.done() {
+                    return;
+                }
+                removals.entry(e.stream).or_default().push(e);
+            }
+            _ => {}
+        }
+    }
+    for (s, rs) in removals.iter() {
+        let n = *created.get(s).unwrap_or(&0);
+        if (rs.len() as i64) < n || n == 0 {
+            continue; // stream still had handles at the end of the history
+        }
+        // the group of removals that overlap (transitively) with the one that returned last
+        let mut rs: Vec<&Event> = rs.clone();
+        rs.sort_by_key(|e| e.t_ret);
+        let last = rs[rs.len() - 1];
+        let mut group: Vec<&Event> = vec![last];
+        let mut lo = last.t_call;
+        loop {
+            let mut grew = false;
+            for e in rs.iter() {
+                if group.iter().any(|g| std::ptr::eq(*g, *e)) {
+                    continue;
+                }
+                if e.t_ret > lo {
+                    group.push(e);
+                    lo = lo.min(e.t_call);
+                    grew = true;
+                }
+            }
+            if !grew {
+                break;
+            }
+        }
+        let trues = group.iter().filter(|e| e.res == Res::Bool(true)).count();
+        let all_unsub = group.iter().all(|e| e.op == Op::Unsub && matches!(e.res, Res::Bool(_)));
+        let outside_true = rs
+            .iter()
+            .filter(|e| !group.iter().any(|g| std::ptr::eq(*g, **e)) && e.res == Res::Bool(true))
+            .count();
+        if trues + outside_true > 1 || (all_unsub && trues == 0) {
+            violation(
+                "C11",
+                "unsubscribe-bool",
+                format!("unsubscribe-bool:last-group:{}-true", trues + outside_true),
+                format!(
+                    "stream {} lost all its {} handles; the removals that overlapped the final one were {:?}: {} of them reported 'was the last handle' (exactly one must)",
+                    s,
+                    n,
+                    group.iter().map(|e| e.show()).collect::<Vec<_>>(),
+                    trues + outside_true
+                ),
+            );
+        }
+    }
+}
